@@ -341,6 +341,10 @@ func (C10) Oracle(ops, impl, model []string) string {
 				var uf int
 				fmt.Sscan(f[4], &uf)
 				blen := len(core.UnHex(f[2]))
+				touched = firstDiff(core.UnHex(f[2]), orig)
+				if touched == blen && blen >= len(orig) {
+					touched = len(orig) + 1
+				}
 				t := touched
 				if blen < t {
 					t = blen
@@ -375,6 +379,29 @@ func (C10) Oracle(ops, impl, model []string) string {
 			}
 		}
 		syncedEnd := recordEnd(orig, ver, synced)
+		touched = firstDiff(buf, orig)
+		if ver == "2" {
+			var uf int
+			fmt.Sscan(f[4], &uf)
+			kc := nrec
+			if uf >= 0 && uf < nrec {
+				kc = uf
+			}
+			if ce := recordEnd(orig, ver, kc); touched < ce {
+				// which record holds the first damaged byte, and does its size field now read as zero?
+				offs := recordOffsets(orig, ver, nrec)
+				j := 0
+				for k, o := range offs {
+					if o <= touched {
+						j = k
+					}
+				}
+				if n == j && offs[j]+4 <= len(buf) && buf[offs[j]] == 0 && buf[offs[j]+1] == 0 && buf[offs[j]+2] == 0 && buf[offs[j]+3] == 0 {
+					return fmt.Sprintf("op %d: zeroed size field of committed record %d is taken for the end of the log: recovery reports success with %d records instead of an error", i, j, n)
+				}
+				return fmt.Sprintf("op %d: a committed record was damaged (first damaged byte %d, committed records end at %d) but recovery reports success with %d records instead of an error", i, touched, ce, n)
+			}
+		}
 		if touched >= syncedEnd && len(buf) >= syncedEnd && n < synced {
 			return fmt.Sprintf("op %d: only the unsynced tail was damaged (from byte %d, synced prefix ends at %d) but only %d of %d synced records were recovered", i, touched, syncedEnd, n, synced)
 		}
@@ -400,6 +427,16 @@ func (C10) Oracle(ops, impl, model []string) string {
 		}
 	}
 	return ""
+}
+
+// firstDiff is the first byte where the (possibly shorter) buffer differs from the original image.
+func firstDiff(buf, orig []byte) int {
+	for i := range buf {
+		if i >= len(orig) || buf[i] != orig[i] {
+			return i
+		}
+	}
+	return len(buf)
 }
 
 func recordOffsets(orig []byte, ver string, nrec int) []int {
